@@ -19,8 +19,13 @@ T0S = [0, 1, -1, 100, -100, -32768, 32767]
 STEPS = [1, -1, 2, -2, 7, -7, 1000, -1000]
 
 
-def axis_triple(rng, big_ok=True):
+def axis_triple(rng, big_ok=True, span=False):
     count = rng.choice([2, 3, 4, 5, 7, 8, 9, 16, 17, rng.randint(2, 40)])
+    if span:
+        # the axis spans (almost) the whole 32-bit range: first and last line number more than 2^31 apart
+        step = (2 ** 32 - 16) // count * rng.choice([1, -1])
+        start = -(2 ** 31) + 3 if step > 0 else 2 ** 31 - 3
+        return start, step, count, 'span'
     step = rng.choice(STEPS)
     kind = rng.choice(['0', '+1', '-1', '+2^20', '-2^20', 'max', 'min'])
     if kind == 'max':
@@ -37,7 +42,7 @@ def cases(tier, seed):
     out = []
     n = 120 if tier == 'quick' else 2000
     for i in range(n):
-        il, xl = axis_triple(rng), axis_triple(rng)
+        il, xl = axis_triple(rng, span=i % 10 == 3), axis_triple(rng, span=i % 10 == 7)
         while il[2] * xl[2] > 700:
             xl = axis_triple(rng)
         dt = INTERVALS[i % len(INTERVALS)]
@@ -125,7 +130,7 @@ def run_case(case, ctx):
             with segyio.open(e, strict=False) as f:
                 compare('after-export', f.ilines, f.xlines, f.samples, f.tracecount, None, s_il, s_xl, s_z, s_n, bad)
     strata = ['route:' + case['route'], 'dt:%d' % case['dt'], 't0:%d' % case['t0'], 'ilstart:' + case['ilk'], 'xlstart:' + case['xlk'],
-              'ilstep:%d' % case['il'][1], 'xlstep:%d' % case['xl'][1], 'follow:%s' % fol]
+              'ilstep:%s' % (case['il'][1] if abs(case['il'][1]) <= 1000 else 'huge'), 'xlstep:%s' % (case['xl'][1] if abs(case['xl'][1]) <= 1000 else 'huge'), 'follow:%s' % fol]
     return {'violations': bad, 'counters': {'sources': 1}, 'strata': strata,
             'key': '%s|%s|%s|%s|%s|%s|%s' % (case['ilk'], case['il'][1], case['xlk'], case['xl'][1], case['dt'], case['t0'], case['route'])}
 
@@ -133,7 +138,7 @@ def run_case(case, ctx):
 def finalize(tier, cases, results, counters, strata):
     reasons = []
     need = ['dt:%d' % d for d in INTERVALS] + ['t0:%d' % t for t in T0S] + ['ilstep:%d' % s for s in STEPS] + \
-           ['ilstart:max', 'ilstart:min', 'xlstart:max', 'xlstart:min', 'route:segy', 'route:numpy', 'follow:crop', 'follow:reblock', 'follow:export']
+           ['ilstart:max', 'ilstart:min', 'xlstart:max', 'xlstart:min', 'ilstart:span', 'xlstart:span', 'route:segy', 'route:numpy', 'follow:crop', 'follow:reblock', 'follow:export']
     for s in need:
         if s not in strata:
             reasons.append('required stratum not hit: ' + s)
